@@ -5,6 +5,7 @@ import (
 	"math/rand/v2"
 	"runtime"
 	"strings"
+	"sync"
 	"time"
 
 	bnet "github.com/bio-routing/bio-rd/net"
@@ -56,10 +57,14 @@ type Policy struct {
 }
 
 // AcceptAll is the chain with one unconditional accept.
-func AcceptAll() Policy { return Policy{Filters: []Filter{{Terms: []Term{{Then: []Act{{Kind: "accept"}}}}}}} }
+func AcceptAll() Policy {
+	return Policy{Filters: []Filter{{Terms: []Term{{Then: []Act{{Kind: "accept"}}}}}}}
+}
 
 // RejectAll is the chain with one unconditional reject.
-func RejectAll() Policy { return Policy{Filters: []Filter{{Terms: []Term{{Then: []Act{{Kind: "reject"}}}}}}} }
+func RejectAll() Policy {
+	return Policy{Filters: []Filter{{Terms: []Term{{Then: []Act{{Kind: "reject"}}}}}}}
+}
 
 // Build constructs the bio-rd chain (fresh objects each time).
 func (p Policy) Build(pool *IPPool) filter.Chain {
@@ -357,11 +362,12 @@ func genCond(rng *rand.Rand, uni []gen.P, o GenOpts) Cond {
 			rf := RF{Pattern: p, Matcher: []string{"exact", "orlonger", "longer", "range"}[rng.IntN(4)]}
 			if rf.Matcher == "range" {
 				w := p.Width()
-				rf.Min = p.Len + uint8(rng.IntN(3))
-				rf.Max = rf.Min + uint8(rng.IntN(w-int(rf.Min)+1))
-				if int(rf.Min) > w {
-					rf.Min = uint8(w)
+				mn := int(p.Len) + rng.IntN(3)
+				if mn > w {
+					mn = w
 				}
+				rf.Min = uint8(mn)
+				rf.Max = uint8(mn + rng.IntN(w-mn+1))
 			}
 			c.RouteFilters = append(c.RouteFilters, rf)
 		}
@@ -662,12 +668,19 @@ func PanicSite(g string) string {
 // GuardTimeout runs fn on its own goroutine; hung=true when it did not return within d (the goroutine is abandoned).
 // A mutex self-deadlock inside a synchronous table call is deterministic, so the caller replays the case to confirm.
 func GuardTimeout(d time.Duration, fn func()) (panicked string, hung bool, stack string) {
+	return guardTimeout(d, fn, true)
+}
+
+func guardTimeout(d time.Duration, fn func(), dump bool) (panicked string, hung bool, stack string) {
 	done := make(chan string, 1)
 	go func() { done <- Guard(fn) }()
 	select {
 	case p := <-done:
 		return p, false, ""
 	case <-time.After(d):
+		if !dump {
+			return "", true, ""
+		}
 		buf := make([]byte, 1<<20)
 		buf = buf[:runtime.Stack(buf, true)]
 		return "", true, blockedIn(string(buf))
@@ -700,4 +713,75 @@ func blockedIn(dump string) string {
 		}
 	}
 	return strings.Join(out, "\n")
+}
+
+// HangGuard runs synchronous table calls under a two-stage watchdog. The calls take microseconds; a first, short
+// timeout keeps a workload with many deadlocking cases fast, and a short timeout is only believed for a key (the
+// violation signature the caller would report) that already hung under the long timeout once (a mutex
+// self-deadlock is deterministic); otherwise the case is run again under the long timeout. In replay mode only
+// the long timeout is used.
+type HangGuard struct {
+	Short, Long time.Duration
+	mu          sync.Mutex
+	confirmed   map[string]string
+}
+
+func NewHangGuard(replay bool) *HangGuard {
+	h := &HangGuard{Short: 15 * time.Millisecond, Long: 3 * time.Second, confirmed: map[string]string{}}
+	if replay {
+		h.Short, h.Long = 0, 20*time.Second
+	}
+	return h
+}
+
+// RunGuarded executes fn (which must build everything it touches itself: it may run twice, and an abandoned run may
+// still be executing) and returns the value of the run that completed.
+func RunGuarded[T any](h *HangGuard, key string, fn func() T) (val T, panicked string, hung bool, stack string) {
+	type res struct {
+		v T
+		p string
+	}
+	try := func(d time.Duration, dump bool) (res, bool, string) {
+		done := make(chan res, 1)
+		go func() {
+			var r res
+			r.p = Guard(func() { r.v = fn() })
+			done <- r
+		}()
+		select {
+		case r := <-done:
+			return r, false, ""
+		case <-time.After(d):
+			if !dump {
+				return res{}, true, ""
+			}
+			buf := make([]byte, 1<<20)
+			buf = buf[:runtime.Stack(buf, true)]
+			return res{}, true, blockedIn(string(buf))
+		}
+	}
+	if h.Short > 0 {
+		r, hg, _ := try(h.Short, false)
+		if !hg {
+			return r.v, r.p, false, ""
+		}
+		h.mu.Lock()
+		st, ok := h.confirmed[key]
+		h.mu.Unlock()
+		if ok {
+			return val, "", true, st
+		}
+	}
+	r, hg, st := try(h.Long, true)
+	if hg {
+		h.mu.Lock()
+		if old, ok := h.confirmed[key]; ok {
+			st = old
+		} else {
+			h.confirmed[key] = st
+		}
+		h.mu.Unlock()
+		return val, "", true, st
+	}
+	return r.v, r.p, false, ""
 }
